@@ -77,6 +77,8 @@ run $S/C20c/patch.diff C20
 run $S/C17c/patch.diff C17
 run $S/C07d/patch.diff C07 C15
 run $S/C02d/patch.diff C03
+run $S/C10d/patch.diff C10
+run $S/C13d/patch.diff C13 C12
 run $S/extra/m1-linkttl.diff C01
 run $S/extra/m2-cachekey-format.diff C12
 run $S/extra/m3-cacheadd-nolock.diff C14 C12
